@@ -62,6 +62,9 @@ def make_factory(start=0.0, stop=5.0, dt=1.0, sm="smSrv", scenarios=None):
 def make_server(factory, adapter=None, token=None):
     from BPTK_Py.server import BptkServer
     app = BptkServer("verif", factory, external_state_adapter=adapter, bearer_token=token)
+    import logging
+    app.logger.disabled = True                      # handler exceptions are observed as 500 responses, not as log noise
+    logging.getLogger("werkzeug").disabled = True
     return app, app.test_client()
 
 
